@@ -126,6 +126,8 @@ type Machine struct {
 	depth     int
 	cur       *frame
 	marks     map[string]int
+	hashers   map[*Value]*hasher
+	forkSites map[string]int
 	inInit    bool
 	implCache map[string]bool
 	spawnHook func(fr *frame, fn Value, args []Value, site *ssa.CallCommon)
@@ -193,6 +195,7 @@ func NewMachine(prog *ssa.Program, cfg Config) (*Machine, error) {
 		stubsSeen: map[string]int{},
 		typeCache: map[string]types.Type{},
 	}
+	m.forkSites = map[string]int{}
 	m.intrinsics = buildIntrinsics()
 	return m, nil
 }
@@ -260,6 +263,7 @@ func (m *Machine) RunPath(entry *ssa.Function, item workItem) (res *PathResult) 
 	m.watchHits = nil
 	m.opaqueSeq = 0
 	m.hashLog = nil
+	m.hashers = nil
 	m.depth = 0
 	m.res = &PathResult{}
 	res = m.res
@@ -497,6 +501,9 @@ func (m *Machine) branch(c *sym.Term) bool {
 		alt := append(append([]Decision(nil), m.decisions...), Decision{Kind: DBranch, Val: b2u(!v)})
 		m.res.NewItems = append(m.res.NewItems, workItem{alt, mod})
 		m.decisions = append(m.decisions, Decision{Kind: DBranch, Val: b2u(v)})
+		if m.cur != nil {
+			m.forkSites[m.cur.fn.String()]++
+		}
 		if v {
 			m.addPC(c)
 		} else {
